@@ -103,7 +103,7 @@ func TestVerifC12Limits(t *testing.T) {
 		}
 	}
 	rng := l.Rand("c12gen")
-	ngen := l.Pick(4000, 40000)
+	ngen := l.Pick(4000, 150000)
 	for i := 0; i < ngen; i++ {
 		pick := func(v ...uint64) uint64 { return v[rng.IntN(len(v))] }
 		p := &c12P{
